@@ -181,6 +181,15 @@ pub fn run_scenario(sc: &Scenario) -> Outcome {
     let shook = SnapHook::new(Side::Server, sc.server.conn_window());
     let keeper: Keeper = Rc::new(RefCell::new(None));
     let keep = !sc.second_wave.is_empty() || sc.ending.is_some();
+    if sc.ending.is_some() {
+        // (Keeping a *completed* connection object alive was tried: on the unchanged tree ping and stream handles
+        // then wait until the object is dropped for several ending kinds - h2 finishes its streams in Drop. That is
+        // recorded as a by-design observation in DESIGN.md 9.3 and not generated: VH_KEEP_CONN=1 turns it on.)
+        if std::env::var("VH_KEEP_CONN").is_ok() {
+            client_ctl.borrow_mut().keep_conn = sc.seed & 8 != 0;
+            server_ctl.borrow_mut().keep_conn = sc.seed & 16 != 0;
+        }
+    }
     let cctx = Ctx { conn: 0, side: Side::Client };
     let sctx = Ctx { conn: 0, side: Side::Server };
     let all_specs: Vec<StreamSpec> = sc.streams.iter().chain(sc.second_wave.iter()).cloned().collect();
@@ -236,11 +245,15 @@ pub fn run_scenario(sc: &Scenario) -> Outcome {
                     let done = Rc::new(RefCell::new(0u32));
                     sim::spawn("client-probe", TaskKind::App, client_requester(cctx.clone(), sr, vec![probe], done));
                 }
-                if !client_ctl.borrow().done {
-                    send_cmd(&client_ctl, ConnCmd::Op(ConnOpKind::Ping));
-                }
-                if !server_ctl.borrow().done {
-                    send_cmd(&server_ctl, ConnCmd::Op(ConnOpKind::Ping));
+                // a ping on each side: through the connection task while it lives, directly on the ping handle once
+                // the connection task has ended (the handle outlives the connection: "subsequent operations ... ping")
+                for (ctl, ctx) in [(&client_ctl, &cctx), (&server_ctl, &sctx)] {
+                    if !ctl.borrow().done {
+                        send_cmd(ctl, ConnCmd::Op(ConnOpKind::Ping));
+                    } else if let Some(pp) = ctl.borrow().pp.clone() {
+                        stats.inc("probe_pings_on_ended_connection");
+                        sim::spawn("probe-ping", TaskKind::App, crate::apps::actors::handle_ping(ctx.clone(), pp));
+                    }
                 }
                 end = sim::run(sc.max_steps);
             }
@@ -475,12 +488,21 @@ pub fn run_scenario(sc: &Scenario) -> Outcome {
     };
     // dropping the world drops every still-pending future and handle: run h2's Drop impls under a catcher
     // (not after a panic inside h2: its locks are poisoned and every destructor would panic again)
+    // connection objects that were kept alive after their futures completed
+    let kept: Vec<Box<dyn std::any::Any>> = [&client_ctl, &server_ctl].iter().flat_map(|c| std::mem::take(&mut c.borrow_mut().kept)).collect();
+    for c in [&client_ctl, &server_ctl] {
+        c.borrow_mut().pp = None;
+    }
     if w.poisoned {
         std::mem::forget(w);
         std::mem::forget(keeper);
+        std::mem::forget(kept);
         return Outcome { violations, notes, stats, fp: fp.0, nontrivial, quiescent, steps_exhausted: !quiescent, trace_tail };
     }
-    let r = catch_unwind(AssertUnwindSafe(move || drop(w)));
+    let r = catch_unwind(AssertUnwindSafe(move || {
+        drop(w);
+        drop(kept);
+    }));
     if let Err(p) = r {
         let msg = if let Some(s) = p.downcast_ref::<&str>() { s.to_string() } else if let Some(s) = p.downcast_ref::<String>() { s.clone() } else { "?".into() };
         if msg.contains("self.slab.is_empty()") || msg.contains("!self.has_streams()") {
